@@ -19,19 +19,19 @@ def closeVecTol (tol : Float) (a b : List Float) : Bool :=
 
 structure Opts where
   (solver coarsen interp relax sweeps maxCoarse maxLevels : Nat) (tap : Int) (maxIter : Nat)
-  (weight theta tol : Float) (kind np : Nat)
+  (weight theta tol : Float) (kind np : Nat) (seq : Bool)
 
 def rdOpts : Rd Opts := do
   let v ← rdVec
   let n (k : Nat) := (v.getD k 0).toNat
   return { solver := n 0, coarsen := n 1, interp := n 2, relax := n 3, sweeps := n 4, maxCoarse := n 5,
            maxLevels := n 6, tap := v.getD 7 0, maxIter := n 8, weight := bitsToFloat (v.getD 9 0),
-           theta := bitsToFloat (v.getD 10 0), tol := bitsToFloat (v.getD 11 0), kind := n 12, np := n 13 }
+           theta := bitsToFloat (v.getD 10 0), tol := bitsToFloat (v.getD 11 0), kind := n 12, np := n 13, seq := n 14 != 0 }
 
 def optFeats (o : Opts) : List String :=
   [if o.solver == 0 then "RS" else "SA", s!"coarsen{o.coarsen}", s!"interp{o.interp}",
    match o.relax with | 0 => "jacobi" | 1 => "sor" | _ => "ssor", s!"np{o.np}", s!"kind{o.kind}",
-   if o.tap ≥ 0 then "tap" else "std"]
+   if o.tap ≥ 0 then "tap" else "std", if o.seq then "sequential_classes" else "distributed_classes"]
 
 /-- triplets `(i, j, bits)*` -/
 def trips : List Int → List (Nat × Nat × Float)
@@ -167,7 +167,7 @@ def checkHistory : Rd Verdict := do
             xoBits := nb xo, boBits := nb bo, b0Bits := nb b0 } : Rec)
   let H ← rdHierarchy o.np
   let fa := bitsToFloat a; let fc := bitsToFloat c
-  let base := "C09/" ++ (if o.solver == 0 then "RS" else "SA")
+  let base := "C09/" ++ (if o.seq then "seq/" else "") ++ (if o.solver == 0 then "RS" else "SA")
   let n := (H.head?.map (·.n)).getD 0
   let feats := "history" :: optFeats o ++ [s!"levels{H.length}"] ++ (if n ≤ 1 then ["trivial"] else [])
   -- nothing the caller owns is altered by solving
@@ -221,7 +221,7 @@ def checkSolve (prop : String) : Rd Verdict := do
   let H ← rdHierarchy o.np
   let n := b0.length
   let A := rowsOf n (trips aBefore)
-  let base := prop ++ "/" ++ (if o.solver == 0 then "RS" else "SA")
+  let base := prop ++ "/" ++ (if o.seq then "seq/" else "") ++ (if o.solver == 0 then "RS" else "SA")
   let feats := "solve" :: optFeats o ++ [s!"levels{H.length}", if iters < o.maxIter then "converged" else "hit_limit"] ++
                (if n ≤ 1 then ["trivial"] else [])
   let its := iterates.map fun v => v.map bitsToFloat
@@ -286,7 +286,7 @@ def checkHier : Rd Verdict := do
   let o ← rdOpts
   let aBefore ← rdVec; let aAfter ← rdVec
   let H ← rdHierarchy o.np
-  let base := "C08/" ++ (if o.solver == 0 then s!"RS/interp{o.interp}" else "SA")
+  let base := "C08/" ++ (if o.seq then "seq/" else "") ++ (if o.solver == 0 then s!"RS/interp{o.interp}" else "SA")
   let n0 := (H.head?.map (·.n)).getD 0
   let feats := "hier" :: optFeats o ++ [s!"levels{H.length}"] ++ (if H.length ≤ 1 then ["trivial"] else []) ++
                (if H.any (fun l => l.info.any fun i => i.getD 0 0 == 0) then ["emptyrank_level"] else ["fullranks"])
